@@ -55,16 +55,19 @@ structure WEv (mk : Mk) (nl bs : Nat) (w w' : WSt) (ops : List FsOp) (evs : List
   pos : w'.pos = w.pos + evSize evs
   wf : ∀ b ∈ evBlocks evs, b.WF
   main : WMain w' nl bs
+  cnt : w'.buf.length < maxEnts
 
-theorem flushW_ev (mk : Mk) (hmk : MkOk mk) (nl bs : Nat) (w : WSt) (hw : WMain w nl bs) :
+theorem flushW_ev (mk : Mk) (hmk : MkOk mk) (nl bs : Nat) (w : WSt) (hw : WMain w nl bs)
+    (hlen : w.buf.length ≤ maxEnts) :
     ∃ evs, WEv mk nl bs w (flushW mk w).1 (flushW mk w).2 evs ∧
       entsOf (evBlocks evs) = w.buf ∧ (flushW mk w).1.buf = [] := by
   by_cases hb : w.buf = []
   · rw [flushW_nil mk w hb]
-    exact ⟨[], ⟨by simp [evOps], by simp [evSize], by simp [evBlocks], hw⟩, by simp [evBlocks, entsOf, hb], hb⟩
+    exact ⟨[], ⟨by simp [evOps], by simp [evSize], by simp [evBlocks], hw, by rw [hb]; exact maxEnts_pos⟩,
+      by simp [evBlocks, entsOf, hb], hb⟩
   · rw [flushW_cons mk w hb]
-    obtain ⟨hwf, hents⟩ := hmk w.buf hb
-    refine ⟨[.blk (mk w.buf)], ⟨?_, ?_, ?_, ⟨hw.path, hw.nl, hw.bs⟩⟩, ?_, rfl⟩
+    obtain ⟨hwf, hents⟩ := hmk w.buf hb hlen
+    refine ⟨[.blk (mk w.buf)], ⟨?_, ?_, ?_, ⟨hw.path, hw.nl, hw.bs⟩, maxEnts_pos⟩, ?_, rfl⟩
     · simp [evOps, hw.path, hw.nl]
     · simp [evSize]; omega
     · simpa [evBlocks] using hwf
@@ -72,7 +75,7 @@ theorem flushW_ev (mk : Mk) (hmk : MkOk mk) (nl bs : Nat) (w : WSt) (hw : WMain 
 
 theorem WEv.trans {mk : Mk} {nl bs : Nat} {w w1 w2 : WSt} {o1 o2 : List FsOp} {e1 e2 : List Ev}
     (h1 : WEv mk nl bs w w1 o1 e1) (h2 : WEv mk nl bs w1 w2 o2 e2) : WEv mk nl bs w w2 (o1 ++ o2) (e1 ++ e2) := by
-  refine ⟨?_, ?_, ?_, h2.main⟩
+  refine ⟨?_, ?_, ?_, h2.main, h2.cnt⟩
   · rw [evOps_append, h1.ops, h2.ops, h1.pos]
   · rw [h2.pos, h1.pos]
     have : evSize (e1 ++ e2) = evSize e1 + evSize e2 := by
@@ -84,45 +87,51 @@ theorem WEv.trans {mk : Mk} {nl bs : Nat} {w w1 w2 : WSt} {o1 o2 : List FsOp} {e
     · exact h1.wf b hb
     · exact h2.wf b hb
 
-theorem addW_ev (mk : Mk) (hmk : MkOk mk) (nl bs : Nat) (w : WSt) (hw : WMain w nl bs) (e : Op) (sz : Nat) :
+theorem addW_ev (mk : Mk) (hmk : MkOk mk) (nl bs : Nat) (w : WSt) (hw : WMain w nl bs)
+    (hlen : w.buf.length < maxEnts) (e : Op) (sz : Nat) :
     ∃ evs, WEv mk nl bs w (addW mk w e sz).1 (addW mk w e sz).2 evs ∧
       entsOf (evBlocks evs) ++ (addW mk w e sz).1.buf = w.buf ++ [e] := by
-  have hw1 : WMain { w with buf := w.buf ++ [e], bufSize := w.bufSize + sz } nl bs := ⟨hw.path, hw.nl, hw.bs⟩
-  by_cases hge : w.bufSize + sz ≥ w.bs
-  · have : addW mk w e sz = flushW mk { w with buf := w.buf ++ [e], bufSize := w.bufSize + sz } := by
-      unfold addW; simp only; rw [if_pos hge]
+  have hw1 : WMain (w.push e sz) nl bs := ⟨hw.path, hw.nl, hw.bs⟩
+  have hl1 : (w.push e sz).buf.length ≤ maxEnts := by simp [WSt.push]; omega
+  by_cases hge : (w.push e sz).full
+  · have : addW mk w e sz = flushW mk (w.push e sz) := by
+      unfold addW; rw [if_pos hge]
     rw [this]
-    obtain ⟨evs, hev, he, hbuf⟩ := flushW_ev mk hmk nl bs _ hw1
-    exact ⟨evs, ⟨hev.ops, hev.pos, hev.wf, hev.main⟩, by rw [hbuf, he]; simp⟩
-  · have : addW mk w e sz = ({ w with buf := w.buf ++ [e], bufSize := w.bufSize + sz }, []) := by
-      unfold addW; simp only; rw [if_neg hge]
+    obtain ⟨evs, hev, he, hbuf⟩ := flushW_ev mk hmk nl bs _ hw1 hl1
+    exact ⟨evs, ⟨hev.ops, hev.pos, hev.wf, hev.main, hev.cnt⟩, by rw [hbuf, he]; simp [WSt.push]⟩
+  · have : addW mk w e sz = (w.push e sz, []) := by
+      unfold addW; rw [if_neg hge]
     rw [this]
-    exact ⟨[], ⟨by simp [evOps], by simp [evSize], by simp [evBlocks], hw1⟩, by simp [evBlocks, entsOf]⟩
+    have hc : (w.push e sz).buf.length < maxEnts := by
+      simp only [WSt.full, not_or, Nat.not_le] at hge; exact hge.2
+    exact ⟨[], ⟨by simp [evOps], by simp [evSize, WSt.push], by simp [evBlocks], hw1, hc⟩,
+      by simp [evBlocks, entsOf, WSt.push]⟩
 
 theorem addManyW_ev (mk : Mk) (hmk : MkOk mk) (nl bs : Nat) (items : List (Op × Nat)) :
-    ∀ (w : WSt), WMain w nl bs →
+    ∀ (w : WSt), WMain w nl bs → w.buf.length < maxEnts →
     ∃ evs, WEv mk nl bs w (addManyW mk w items).1 (addManyW mk w items).2 evs ∧
       entsOf (evBlocks evs) ++ (addManyW mk w items).1.buf = w.buf ++ items.map (·.1) := by
   induction items with
   | nil =>
-    intro w hw
-    exact ⟨[], ⟨by simp [evOps, addManyW], by simp [evSize, addManyW], by simp [evBlocks], hw⟩,
+    intro w hw hc
+    exact ⟨[], ⟨by simp [evOps, addManyW], by simp [evSize, addManyW], by simp [evBlocks], hw, hc⟩,
       by simp [evBlocks, entsOf, addManyW]⟩
   | cons it rest ih =>
-    intro w hw
+    intro w hw hc
     obtain ⟨e, sz⟩ := it
-    obtain ⟨a, ha, hea⟩ := addW_ev mk hmk nl bs w hw e sz
-    obtain ⟨b, hb, heb⟩ := ih _ ha.main
+    obtain ⟨a, ha, hea⟩ := addW_ev mk hmk nl bs w hw hc e sz
+    obtain ⟨b, hb, heb⟩ := ih _ ha.main ha.cnt
     refine ⟨a ++ b, ?_, ?_⟩
     · simp only [addManyW]; exact ha.trans hb
     · simp only [addManyW, evBlocks_append, entsOf_append, List.map_cons, List.append_assoc]
       rw [heb, ← List.append_assoc, hea]; simp
 
-theorem syncW_ev (c : Cfg) (mk : Mk) (hmk : MkOk mk) (nl bs : Nat) (w : WSt) (hw : WMain w nl bs) :
+theorem syncW_ev (c : Cfg) (mk : Mk) (hmk : MkOk mk) (nl bs : Nat) (w : WSt) (hw : WMain w nl bs)
+    (hlen : w.buf.length ≤ maxEnts) :
     ∃ evs, WEv mk nl bs w (syncW c mk w).1 (syncW c mk w).2 evs ∧
       entsOf (evBlocks evs) = w.buf ∧ (syncW c mk w).1.buf = [] := by
-  obtain ⟨evs, hev, he, hbuf⟩ := flushW_ev mk hmk nl bs w hw
-  refine ⟨evs ++ ([.hdr] ++ if c.syncFsyncs then [.sync] else []), ⟨?_, ?_, ?_, hev.main⟩, ?_, hbuf⟩
+  obtain ⟨evs, hev, he, hbuf⟩ := flushW_ev mk hmk nl bs w hw hlen
+  refine ⟨evs ++ ([.hdr] ++ if c.syncFsyncs then [.sync] else []), ⟨?_, ?_, ?_, hev.main, hev.cnt⟩, ?_, hbuf⟩
   · simp only [syncW]
     rw [evOps_append, ← hev.ops, List.append_assoc]
     congr 1
@@ -143,9 +152,10 @@ theorem syncW_ev (c : Cfg) (mk : Mk) (hmk : MkOk mk) (nl bs : Nat) (w : WSt) (hw
       cases c.syncFsyncs <;> simp [evBlocks]
     rw [this, List.append_nil]; exact he
 
-theorem closeW_ev (c : Cfg) (mk : Mk) (hmk : MkOk mk) (nl bs : Nat) (w : WSt) (hw : WMain w nl bs) :
+theorem closeW_ev (c : Cfg) (mk : Mk) (hmk : MkOk mk) (nl bs : Nat) (w : WSt) (hw : WMain w nl bs)
+    (hlen : w.buf.length ≤ maxEnts) :
     ∃ evs, closeW c mk w = evOps nl w.pos evs ∧ (∀ b ∈ evBlocks evs, b.WF) ∧ entsOf (evBlocks evs) = w.buf := by
-  obtain ⟨evs, hev, he, _⟩ := flushW_ev mk hmk nl bs w hw
+  obtain ⟨evs, hev, he, _⟩ := flushW_ev mk hmk nl bs w hw hlen
   have hnil : evBlocks ([Ev.hdr] ++ if c.closeFsyncs = true then [Ev.sync] else []) = [] := by
     cases c.closeFsyncs <;> simp [evBlocks]
   refine ⟨evs ++ ([.hdr] ++ if c.closeFsyncs then [.sync] else []), ?_, ?_, ?_⟩
@@ -282,7 +292,8 @@ structure Started (mk : Mk) (nl bs : Nat) (r : Run) (wr : List Op) (evs : List E
   wf : ∀ b ∈ evBlocks evs, b.WF
   writer : match r.cs.w with
     | none => entsOf (evBlocks evs) = wr
-    | some w => WMain w nl bs ∧ w.pos = (fileCells nl (evBlocks evs)).length ∧ entsOf (evBlocks evs) ++ w.buf = wr
+    | some w => WMain w nl bs ∧ w.pos = (fileCells nl (evBlocks evs)).length ∧ entsOf (evBlocks evs) ++ w.buf = wr ∧
+        w.buf.length < maxEnts
 
 structure RInv (mk : Mk) (nl bs : Nat) (r : Run) (wr : List Op) : Prop where
   nlName : r.cs.nlName = nl
@@ -323,7 +334,7 @@ theorem step_inv (c : Cfg) (mk : Mk) (hmk : MkOk mk) (nl bs : Nat) (r : Run) (wr
           simp [ensureW, hw, hd, openWriter, Disk.get, hnl, hbs]
         simp only [hopen]
         obtain ⟨e2, hev, hents⟩ := addManyW_ev mk hmk nl bs items
-          { path := .main, pos := 64 + nl, nl := nl, buf := [], bufSize := 0, bs := bs } ⟨rfl, rfl, rfl⟩
+          { path := .main, pos := 64 + nl, nl := nl, buf := [], bufSize := 0, bs := bs } ⟨rfl, rfl, rfl⟩ maxEnts_pos
         refine ⟨hnl, hbs, Or.inr ⟨e2, ?_, ?_, hev.wf, ?_⟩⟩
         · simp only [hops, List.nil_append]; rw [hev.ops]
         · simp only [hd, Disk.applyAll_append, createOps_apply_main]
@@ -333,20 +344,20 @@ theorem step_inv (c : Cfg) (mk : Mk) (hmk : MkOk mk) (nl bs : Nat) (r : Run) (wr
           simp only [List.length_append, fhCells_length, nmCells_length] at this
           rw [this]; simp [fileCells]
         · simp only
-          refine ⟨hev.main, ?_, ?_⟩
+          refine ⟨hev.main, ?_, ?_, hev.cnt⟩
           · rw [hev.pos, fileCells_length, evSize_eq]
           · rw [hwr]; simpa using hents
       · obtain ⟨hops, hd, hwf, hwriter⟩ := hst
         -- a writer is open, or the clean file is reopened without any operation
         have key : ∀ w0 : WSt, WMain w0 nl bs → w0.pos = (fileCells nl (evBlocks evs)).length →
-            entsOf (evBlocks evs) ++ w0.buf = wr →
+            entsOf (evBlocks evs) ++ w0.buf = wr → w0.buf.length < maxEnts →
             ∀ o0, ensureW c r.d r.cs = some (w0, o0) → o0 = [] →
             RInv mk nl bs { cs := { r.cs with w := some (addManyW mk w0 items).1 },
                             d := r.d.applyAll (o0 ++ (addManyW mk w0 items).2),
                             ops := r.ops ++ (o0 ++ (addManyW mk w0 items).2) } (wr ++ items.map (·.1)) := by
-          intro w0 hw0 hpos hent o0 _ ho0
+          intro w0 hw0 hpos hent hcnt o0 _ ho0
           subst ho0
-          obtain ⟨e2, hev, hents⟩ := addManyW_ev mk hmk nl bs items w0 hw0
+          obtain ⟨e2, hev, hents⟩ := addManyW_ev mk hmk nl bs items w0 hw0 hcnt
           obtain ⟨h1, h2⟩ := Started.extend (e2 := e2) hops hd w0.pos hpos
           refine ⟨hnl, hbs, Or.inr ⟨evs ++ e2, ?_, ?_, ?_, ?_⟩⟩
           · simp only [List.nil_append]; rw [hev.ops]; exact h1
@@ -357,17 +368,17 @@ theorem step_inv (c : Cfg) (mk : Mk) (hmk : MkOk mk) (nl bs : Nat) (r : Run) (wr
             · exact hwf b hb
             · exact hev.wf b hb
           · simp only
-            refine ⟨hev.main, ?_, ?_⟩
+            refine ⟨hev.main, ?_, ?_, hev.cnt⟩
             · rw [hev.pos, hpos, fileCells_length, fileCells_length, evBlocks_append, render_append, evSize_eq]
               simp; omega
             · rw [evBlocks_append, entsOf_append, List.append_assoc, hents, ← List.append_assoc, hent]
         cases hw : r.cs.w with
         | some w0 =>
           rw [hw] at hwriter
-          obtain ⟨hw0, hpos, hent⟩ := hwriter
+          obtain ⟨hw0, hpos, hent, hcnt⟩ := hwriter
           have he : ensureW c r.d r.cs = some (w0, []) := by simp [ensureW, hw]
           simp only [he]
-          exact key w0 hw0 hpos hent [] he rfl
+          exact key w0 hw0 hpos hent hcnt [] he rfl
         | none =>
           rw [hw] at hwriter
           let w1 : WSt := { path := .main, pos := (fileCells nl (evBlocks evs)).length, nl := nl, buf := [], bufSize := 0, bs := bs }
@@ -375,7 +386,7 @@ theorem step_inv (c : Cfg) (mk : Mk) (hmk : MkOk mk) (nl bs : Nat) (r : Run) (wr
             simp only [ensureW, hw, hd, hbs]
             exact openWriter_clean c nl bs _ hwf none _
           simp only [he]
-          exact key w1 ⟨rfl, rfl, rfl⟩ rfl (by simpa [w1] using hwriter) [] he rfl
+          exact key w1 ⟨rfl, rfl, rfl⟩ rfl (by simpa [w1] using hwriter) maxEnts_pos [] he rfl
   | sync =>
     simp only [Run.step, written, List.append_nil]
     cases hw : r.cs.w with
@@ -387,8 +398,8 @@ theorem step_inv (c : Cfg) (mk : Mk) (hmk : MkOk mk) (nl bs : Nat) (r : Run) (wr
       rcases hshape with ⟨_, _, hwn, _⟩ | ⟨evs, hops, hd, hwf, hwriter⟩
       · rw [hw] at hwn; cases hwn
       · rw [hw] at hwriter
-        obtain ⟨hw0, hpos, hent⟩ := hwriter
-        obtain ⟨e2, hev, hents, hbuf⟩ := syncW_ev c mk hmk nl bs w0 hw0
+        obtain ⟨hw0, hpos, hent, hcnt⟩ := hwriter
+        obtain ⟨e2, hev, hents, hbuf⟩ := syncW_ev c mk hmk nl bs w0 hw0 (Nat.le_of_lt hcnt)
         obtain ⟨h1, h2⟩ := Started.extend (e2 := e2) hops hd w0.pos hpos
         refine ⟨hnl, hbs, Or.inr ⟨evs ++ e2, ?_, ?_, ?_, ?_⟩⟩
         · simp only; rw [hev.ops]; exact h1
@@ -399,7 +410,7 @@ theorem step_inv (c : Cfg) (mk : Mk) (hmk : MkOk mk) (nl bs : Nat) (r : Run) (wr
           · exact hwf b hb
           · exact hev.wf b hb
         · simp only
-          refine ⟨hev.main, ?_, ?_⟩
+          refine ⟨hev.main, ?_, ?_, hev.cnt⟩
           · rw [hev.pos, hpos, fileCells_length, fileCells_length, evBlocks_append, render_append, evSize_eq]
             simp; omega
           · rw [hbuf, evBlocks_append, entsOf_append, hents, List.append_nil]; exact hent
@@ -414,8 +425,8 @@ theorem step_inv (c : Cfg) (mk : Mk) (hmk : MkOk mk) (nl bs : Nat) (r : Run) (wr
       rcases hshape with ⟨_, _, hwn, _⟩ | ⟨evs, hops, hd, hwf, hwriter⟩
       · rw [hw] at hwn; cases hwn
       · rw [hw] at hwriter
-        obtain ⟨hw0, hpos, hent⟩ := hwriter
-        obtain ⟨e2, hev, hwf2, hents⟩ := closeW_ev c mk hmk nl bs w0 hw0
+        obtain ⟨hw0, hpos, hent, hcnt⟩ := hwriter
+        obtain ⟨e2, hev, hwf2, hents⟩ := closeW_ev c mk hmk nl bs w0 hw0 (Nat.le_of_lt hcnt)
         obtain ⟨h1, h2⟩ := Started.extend (e2 := e2) hops hd w0.pos hpos
         refine ⟨hnl, hbs, Or.inr ⟨evs ++ e2, ?_, ?_, ?_, ?_⟩⟩
         · simp only; rw [hev]; exact h1
@@ -433,26 +444,165 @@ theorem written_append (a b : List Act) : written (a ++ b) = written a ++ writte
   | nil => rfl
   | cons x r ih => cases x <;> simp [written, ih]
 
+/-- the run after a `Write` that left the writer `w` and issued `o` -/
+def Run.wrote (r : Run) (w : WSt) (o : List FsOp) : Run :=
+  { cs := { r.cs with w := some w }, d := r.d.applyAll o, ops := r.ops ++ o }
+
+theorem step_cs (c : Cfg) (mk : Mk) (r : Run) (a : Act) :
+    (r.step c mk a).cs.nlName = r.cs.nlName ∧ (r.step c mk a).cs.bs = r.cs.bs := by
+  cases a with
+  | w items =>
+    simp only [Run.step, cWrite]
+    split
+    · exact ⟨rfl, rfl⟩
+    · split <;> exact ⟨rfl, rfl⟩
+  | sync => simp only [Run.step, cSync]; split <;> exact ⟨rfl, rfl⟩
+  | close => simp only [Run.step, cClose]; split <;> exact ⟨rfl, rfl⟩
+
+theorem Started.append_nil {mk : Mk} {nl bs : Nat} {r : Run} {wr : List Op} {evs : List Ev}
+    (h : Started mk nl bs r wr evs) : Started mk nl bs r wr (evs ++ []) := by simpa using h
+
+/-- **A started run only ever extends its event log**: whatever the next act, the operations are
+    the old session log followed by further events. -/
+theorem step_started (c : Cfg) (mk : Mk) (hmk : MkOk mk) (nl bs : Nat) (r : Run) (wr : List Op) (evs : List Ev)
+    (hbs : r.cs.bs = bs) (hst : Started mk nl bs r wr evs) (a : Act) :
+    ∃ e2, Started mk nl bs (r.step c mk a) (wr ++ written [a]) (evs ++ e2) := by
+  cases a with
+  | w items =>
+    simp only [Run.step, written, List.append_nil]
+    by_cases hemp : items.isEmpty = true
+    · have : items = [] := by simpa using hemp
+      subst this
+      simp only [cWrite, List.isEmpty_nil, if_true, Disk.applyAll_nil, List.append_nil, List.map_nil]
+      exact ⟨[], hst.append_nil⟩
+    · simp only [cWrite, hemp, if_false, Bool.false_eq_true]
+      obtain ⟨hops, hd, hwf, hwriter⟩ := hst
+      have key : ∀ w0 : WSt, WMain w0 nl bs → w0.pos = (fileCells nl (evBlocks evs)).length →
+          entsOf (evBlocks evs) ++ w0.buf = wr → w0.buf.length < maxEnts →
+          ∀ o0, ensureW c r.d r.cs = some (w0, o0) → o0 = [] →
+          ∃ e2, Started mk nl bs (r.wrote (addManyW mk w0 items).1 (o0 ++ (addManyW mk w0 items).2))
+            (wr ++ items.map (·.1)) (evs ++ e2) := by
+        intro w0 hw0 hpos hent hcnt o0 _ ho0
+        subst ho0
+        obtain ⟨e2, hev, hents⟩ := addManyW_ev mk hmk nl bs items w0 hw0 hcnt
+        obtain ⟨h1, h2⟩ := Started.extend (e2 := e2) hops hd w0.pos hpos
+        refine ⟨e2, ?_, ?_, ?_, ?_⟩
+        · simp only [Run.wrote, List.nil_append]; rw [hev.ops]; exact h1
+        · simp only [Run.wrote, List.nil_append]; rw [hev.ops]; exact h2
+        · intro b hb
+          rw [evBlocks_append] at hb
+          rcases List.mem_append.mp hb with hb | hb
+          · exact hwf b hb
+          · exact hev.wf b hb
+        · simp only [Run.wrote]
+          refine ⟨hev.main, ?_, ?_, hev.cnt⟩
+          · rw [hev.pos, hpos, fileCells_length, fileCells_length, evBlocks_append, render_append, evSize_eq]
+            simp; omega
+          · rw [evBlocks_append, entsOf_append, List.append_assoc, hents, ← List.append_assoc, hent]
+      cases hw : r.cs.w with
+      | some w0 =>
+        rw [hw] at hwriter
+        obtain ⟨hw0, hpos, hent, hcnt⟩ := hwriter
+        have he : ensureW c r.d r.cs = some (w0, []) := by simp [ensureW, hw]
+        simp only [he]
+        exact key w0 hw0 hpos hent hcnt [] he rfl
+      | none =>
+        rw [hw] at hwriter
+        let w1 : WSt := { path := .main, pos := (fileCells nl (evBlocks evs)).length, nl := nl, buf := [], bufSize := 0, bs := bs }
+        have he : ensureW c r.d r.cs = some (w1, []) := by
+          simp only [ensureW, hw, hd, hbs]
+          exact openWriter_clean c nl bs _ hwf none _
+        simp only [he]
+        exact key w1 ⟨rfl, rfl, rfl⟩ rfl (by simpa [w1] using hwriter) maxEnts_pos [] he rfl
+  | sync =>
+    simp only [Run.step, written, List.append_nil]
+    cases hw : r.cs.w with
+    | none =>
+      simp only [cSync, hw, Disk.applyAll_nil, List.append_nil]
+      exact ⟨[], hst.append_nil⟩
+    | some w0 =>
+      simp only [cSync, hw]
+      obtain ⟨hops, hd, hwf, hwriter⟩ := hst
+      rw [hw] at hwriter
+      obtain ⟨hw0, hpos, hent, hcnt⟩ := hwriter
+      obtain ⟨e2, hev, hents, hbuf⟩ := syncW_ev c mk hmk nl bs w0 hw0 (Nat.le_of_lt hcnt)
+      obtain ⟨h1, h2⟩ := Started.extend (e2 := e2) hops hd w0.pos hpos
+      refine ⟨e2, ?_, ?_, ?_, ?_⟩
+      · simp only; rw [hev.ops]; exact h1
+      · simp only; rw [hev.ops]; exact h2
+      · intro b hb
+        rw [evBlocks_append] at hb
+        rcases List.mem_append.mp hb with hb | hb
+        · exact hwf b hb
+        · exact hev.wf b hb
+      · simp only
+        refine ⟨hev.main, ?_, ?_, hev.cnt⟩
+        · rw [hev.pos, hpos, fileCells_length, fileCells_length, evBlocks_append, render_append, evSize_eq]
+          simp; omega
+        · rw [hbuf, evBlocks_append, entsOf_append, hents, List.append_nil]; exact hent
+  | close =>
+    simp only [Run.step, written, List.append_nil]
+    cases hw : r.cs.w with
+    | none =>
+      simp only [cClose, hw, Disk.applyAll_nil, List.append_nil]
+      exact ⟨[], hst.append_nil⟩
+    | some w0 =>
+      simp only [cClose, hw]
+      obtain ⟨hops, hd, hwf, hwriter⟩ := hst
+      rw [hw] at hwriter
+      obtain ⟨hw0, hpos, hent, hcnt⟩ := hwriter
+      obtain ⟨e2, hev, hwf2, hents⟩ := closeW_ev c mk hmk nl bs w0 hw0 (Nat.le_of_lt hcnt)
+      obtain ⟨h1, h2⟩ := Started.extend (e2 := e2) hops hd w0.pos hpos
+      refine ⟨e2, ?_, ?_, ?_, ?_⟩
+      · simp only; rw [hev]; exact h1
+      · simp only; rw [hev]; exact h2
+      · intro b hb
+        rw [evBlocks_append] at hb
+        rcases List.mem_append.mp hb with hb | hb
+        · exact hwf b hb
+        · exact hwf2 b hb
+      · simp only
+        rw [evBlocks_append, entsOf_append, hents]; exact hent
+
+/-- any acts from a started run: the event log is extended -/
+theorem run_started (c : Cfg) (mk : Mk) (hmk : MkOk mk) (nl bs : Nat) : ∀ (acts : List Act) (r : Run) (wr : List Op)
+    (evs : List Ev), r.cs.bs = bs → Started mk nl bs r wr evs →
+    ∃ e2, Started mk nl bs (acts.foldl (Run.step c mk) r) (wr ++ written acts) (evs ++ e2) := by
+  intro acts
+  induction acts with
+  | nil => intro r wr evs _ h; exact ⟨[], by simpa [written] using h⟩
+  | cons a rest ih =>
+    intro r wr evs hbs h
+    obtain ⟨e1, h1⟩ := step_started c mk hmk nl bs r wr evs hbs h a
+    obtain ⟨e2, h2⟩ := ih _ _ _ ((step_cs c mk r a).2.trans hbs) h1
+    refine ⟨e1 ++ e2, ?_⟩
+    simp only [List.foldl_cons]
+    have hw : wr ++ written (a :: rest) = wr ++ written [a] ++ written rest := by
+      rw [show a :: rest = [a] ++ rest from rfl, written_append, List.append_assoc]
+    rw [hw, ← List.append_assoc]; exact h2
+
+/-- the invariant is kept by any acts, from any run that satisfies it (not only the empty one) -/
+theorem run_inv_gen (c : Cfg) (mk : Mk) (hmk : MkOk mk) (nl bs : Nat) : ∀ (acts : List Act) (r : Run) (wr : List Op),
+    RInv mk nl bs r wr → RInv mk nl bs (acts.foldl (Run.step c mk) r) (wr ++ written acts) := by
+  intro acts
+  induction acts with
+  | nil => intro r wr h; simpa [written] using h
+  | cons a rest ih =>
+    intro r wr h
+    have h1 := step_inv c mk hmk nl bs r wr h a
+    have h2 := ih _ _ h1
+    simp only [List.foldl_cons]
+    have : wr ++ written (a :: rest) = wr ++ written [a] ++ written rest := by
+      rw [show a :: rest = [a] ++ rest from rfl, written_append, List.append_assoc]
+    rw [this]; exact h2
+
 /-- **Tie between the executable chronicler model and the session log**: whatever acts are
     run from an empty disk, the operation log is `createOps ++ evOps …` on a clean file whose
     blocks plus the writer's buffer hold exactly the written entries. -/
 theorem run_inv (c : Cfg) (mk : Mk) (hmk : MkOk mk) (nl bs : Nat) (acts : List Act) :
     RInv mk nl bs (runActs c mk nl bs acts) (written acts) := by
-  have gen : ∀ (acts : List Act) (r : Run) (wr : List Op), RInv mk nl bs r wr →
-      RInv mk nl bs (acts.foldl (Run.step c mk) r) (wr ++ written acts) := by
-    intro acts
-    induction acts with
-    | nil => intro r wr h; simpa [written] using h
-    | cons a rest ih =>
-      intro r wr h
-      have h1 := step_inv c mk hmk nl bs r wr h a
-      have h2 := ih _ _ h1
-      simp only [List.foldl_cons]
-      have : wr ++ written (a :: rest) = wr ++ written [a] ++ written rest := by
-        rw [show a :: rest = [a] ++ rest from rfl, written_append, List.append_assoc]
-      rw [this]; exact h2
   have h0 : RInv mk nl bs { cs := { w := none, nlName := nl, bs := bs } } [] :=
     ⟨rfl, rfl, Or.inl ⟨rfl, rfl, rfl, rfl⟩⟩
-  simpa [runActs] using gen acts _ _ h0
+  simpa [runActs] using run_inv_gen c mk hmk nl bs acts _ _ h0
 
 end Hv.BlockStore
